@@ -18,7 +18,7 @@ import sys
 
 VERIF = os.path.dirname(os.path.dirname(os.path.abspath(__file__)))
 REPO = os.environ.get("VERIF_REPO", "/repo")
-BUILD = os.path.join(VERIF, ".build")
+BUILD = os.environ.get("VERIF_BUILD") or os.path.join(VERIF, ".build")
 PY = "/venv/bin/python"
 
 PYX = ["enspara/info_theory/libinfo.pyx", "enspara/geometry/libdist.pyx",
